@@ -259,6 +259,7 @@ def run(ctx):
                 drag_check(ctx, alg, w, case, rng, canon, tok, lines, plan, np)
     dependent_pass(ctx, np)
     notification_pass(ctx, np)
+    fine_drag_pass(ctx, np)
     # decode with the front end's own code
     try:
         dec = node_decode(node_cases)
@@ -366,6 +367,49 @@ def notification_pass(ctx, np):
                             break
                 except Exception as e:
                     ctx.violation('graph-raises', case, 'a payload', repr(e)[:200], key='widget:raises')
+
+
+def fine_drag_pass(ctx, np):
+    """drags that move a point by very little (relative changes of 2^-20 .. 2^-52 of a coefficient, one ulp, and a sequence of
+    such drags): after each drag the original multivector holds exactly the coefficients that were sent, however small the
+    difference to the previous value, and dependent callables are re-evaluated on them"""
+    from kingdon import MultiVector
+    import math
+    rng = ctx.rng
+    for sig, basis in (([0, 1, 1], ["e", "e1", "e2", "e0", "e20", "e01", "e12", "e012"]), ([1, 1, 1], None)):
+        alg = make_algebra(sig, None, basis)
+        d = alg.d
+        canon = list(alg.canon2bin.values())
+        pga = alg.r == 1 and d in (3, 4)
+        pk = [k for k in canon if bin(k).count('1') == (d - 1 if pga else 1)]
+        for backing in ('list', 'ndarray', 'dense-ndarray'):
+            keys = canon if backing == 'dense-ndarray' and not pga else pk
+            vals0 = [float(rng.randint(1, 9)) for _ in keys]
+            P = MultiVector.fromkeysvalues(alg, tuple(keys), list(vals0) if backing == 'list' else np.array(vals0))
+            case = {'sig': sig, 'basis': basis, 'backing': backing}
+            try:
+                w = alg.graph(P, lambda: P + P)
+                w.subjects
+                if not list(w.draggable_points_idxs):
+                    continue
+                cur = {k: float(v) for k, v in zip(P.keys(), P.values())}
+                for step, rel in enumerate((2.0 ** -20, 2.0 ** -25, 2.0 ** -30, 2.0 ** -40, 'ulp', 2.0 ** -25, 'ulp')):
+                    new = dict(cur)
+                    k = rng.choice(list(new))
+                    new[k] = math.nextafter(new[k], math.inf) if rel == 'ulp' else new[k] * (1.0 + rel)
+                    if new[k] == cur[k]:
+                        continue
+                    sent = [new.get(kk, 0.0) for kk in canon]
+                    w.draggable_points = [{'mv': sent}]
+                    got = {kk: float(v) for kk, v in zip(P.keys(), P.values())}
+                    c2 = {**case, 'drag': step, 'blade': k, 'relative_change': rel, 'previous': cur[k], 'sent': new[k]}
+                    ctx.case(c2, tag='fine-drag')
+                    if got != new:
+                        ctx.violation('drag-coefficients', c2, new[k], got[k], key='drag:coefficients:fine')
+                        break
+                    cur = new
+            except Exception as e:
+                ctx.violation('graph-raises', case, 'a payload', repr(e)[:200], key='widget:raises')
 
 
 def flat(x):
